@@ -5,6 +5,7 @@
 import XpDriver.Proto
 import XpDriver.C02
 import XpDriver.C06
+import XpDriver.C12
 import XpDriver.C19
 open Lean Xp Xp.Proto
 
@@ -16,6 +17,8 @@ def dispatch (op : String) (j : Json) : R Json :=
   | "seg_score" => Ops.segScoreOp j
   | "drise" => Ops.driseOp j
   | "occl" => Ops.occl j
+  | "explain_shape" => Ops.explainShapeOp j
+  | "sanitize" => Ops.sanitizeOp j
   | "obj_run" => Ops.objRun j
   | "obj_compile" => Ops.objCompile j
   | "to_valid" => Ops.toValidOp j
